@@ -38,7 +38,8 @@ def mkod(subs, values=None, defaults=None):
     if key in _ODS:
         return _ODS[key]
     od = ObjectDictionary()
-    for (i, s, l), t in zip(OBJS + [BIG], (dt.UNSIGNED8, dt.INTEGER16, dt.UNSIGNED32, dt.UNSIGNED64)):
+    for (i, s, l), t in zip(OBJS + [BIG] + STRS, (dt.UNSIGNED8, dt.INTEGER16, dt.UNSIGNED32, dt.UNSIGNED64, dt.OCTET_STRING,
+                                                  dt.VISIBLE_STRING, dt.DOMAIN)):
         v = ODVariable("obj%x" % i, i)
         v.data_type = t
         v.pdo_mappable = True
@@ -71,7 +72,10 @@ def mkod(subs, values=None, defaults=None):
     return od
 
 
-MAPPINGS = [[]] + [[o] for o in OBJS] + [[a, b] for a in OBJS for b in OBJS] + [[BIG]] + [[OBJS[0]] * 8]
+# objects without a fixed size (strings, domain) mapped with an explicit bit length
+STRS = [(0x2004, 0, 48), (0x2005, 0, 64), (0x2006, 0, 24)]
+MAPPINGS = [[]] + [[o] for o in OBJS] + [[a, b] for a in OBJS for b in OBJS] + [[BIG]] + [[OBJS[0]] * 8] + \
+           [[STRS[0]], [STRS[1]], [STRS[2], OBJS[0], OBJS[2]], [OBJS[1], STRS[0]]]
 SUBSETS = {"all": (3, 5, 6), "none": (), "gap": (5, 6), "only3": (3,)}
 
 
